@@ -1296,7 +1296,25 @@ func (b *Builder) funcTable(s *ast.RangeStmt) []*types.Func {
 		}
 	}
 	x := ast.Unparen(s.X)
+	pkgInfo := b.info
 	if id, ok := x.(*ast.Ident); ok {
+		if v, isVar := b.info.Uses[id].(*types.Var); isVar && isPkgLevel(v) {
+			// a never-written package-level table of functions of the same package
+			pk := b.P.All[v.Pkg().Path()]
+			if pk == nil || pk.TypesInfo != b.info || !b.P.neverWritten(v) {
+				return nil
+			}
+			init := findInit(pk.Syntax, pk.TypesInfo, v)
+			if init == nil {
+				return nil
+			}
+			x = ast.Unparen(init)
+			id = nil
+		}
+		_ = pkgInfo
+		if id == nil {
+			goto table
+		}
 		v, isVar := b.info.Uses[id].(*types.Var)
 		if !isVar || isPkgLevel(v) || b.inst.Fn == nil {
 			return nil
@@ -1341,6 +1359,7 @@ func (b *Builder) funcTable(s *ast.RangeStmt) []*types.Func {
 		}
 		x = ast.Unparen(def)
 	}
+table:
 	cl, ok := x.(*ast.CompositeLit)
 	if !ok || len(cl.Elts) == 0 {
 		return nil
